@@ -9,6 +9,7 @@ let () =
     | "mocks" -> H_mocks.mocks_case
     | "constraints" -> H_constraints.constraints_case
     | "format" -> H_format.format_case
+    | "vector" -> H_vector.vector_case
     | _ -> failwith ("unknown model " ^ sub) in
   (try
     while true do
